@@ -1,6 +1,6 @@
 # C13  RANLUX random generator: proof (Coq) + correspondence of the executable model with
 #      src/RandomGenerator.hpp, three-way with gsl_rng_ranlxd2 and a plain python subtract-with-borrow reference
-import os, json
+import os, json, re
 import vf
 
 LEVEL = "proof"
@@ -440,6 +440,12 @@ def replay(ck, rp):
         print(log3[-2000:])
         return 2
     r = rp["replay"]
+    if "ops" not in r:       # whole-binary replays (same seed twice / different seeds)
+        ck.quick = True
+        whole_binary_determinism(ck)
+        bad = [v for v in ck.violations if v["key"].get("config") == r.get("config")]
+        print("REPLAY:", bad[0]["what"] if bad else "property holds on this input")
+        return 1 if bad else 0
     ops = r["ops"]
     rc, out = vf.run_lines([os.path.join(d, "impl"), os.path.join(d, "restart.tmp")], "\n".join(ops) + "\n")
     groups = split_out([ops], out, True)[0]
@@ -498,5 +504,36 @@ def whole_binary_determinism(ck):
                 diff = [(a, b) for a, b in zip(digs[0][f], digs[1][f]) if a != b][:5]
                 ck.violation("C13: two one-thread runs of %s with the same seed differ in snapshot %s: %s" % (cfg, f, diff), {"config": cfg, "file": f, "diff": diff},
                              key={"kind": "snapshot_nondeterministic", "config": cfg})
+    # the seed given in the parameter file reaches the generators: different seeds give different snapshots
+    nseed = 0
+    for cfg, args in cfgs:
+        txt = open(os.path.join(vf.VERIF, "harness", "configs", cfg)).read()
+        if not re.search(r"(?m)^\s*random seed:\s*\d+", txt):
+            continue
+        by_seed = {}
+        for seed in (1, 2):
+            w = os.path.join(d, "wbs_%s_%d" % (cfg, seed))
+            shutil.rmtree(w, ignore_errors=True)
+            os.makedirs(w)
+            for f in os.listdir(os.path.join(vf.VERIF, "harness", "configs")):
+                shutil.copy(os.path.join(vf.VERIF, "harness", "configs", f), w)
+            open(os.path.join(w, cfg), "w").write(re.sub(r"(?m)^(\s*random seed:)\s*\d+", r"\1 %d" % seed, txt))
+            rc, out = vf.sh([exe] + args + ["--params", cfg, "--threads", "1", "--dirty"], cwd=w, timeout=600)
+            res = {}
+            for f in sorted(os.listdir(w)):
+                if f.endswith(".hdf5"):
+                    rc2, o2 = vf.sh([dig, os.path.join(w, f)], timeout=120)
+                    res[f] = [l for l in o2.splitlines() if "@Creation time" not in l and "random seed" not in l.lower()]
+            by_seed[seed] = (rc, res)
+            shutil.rmtree(w, ignore_errors=True)
+        if any(v[0] != 0 for v in by_seed.values()):
+            ck.breaks.append("whole-binary run %s with another seed exits with %r" % (cfg, [v[0] for v in by_seed.values()]))
+            continue
+        nseed += 1
+        if by_seed[1][1] == by_seed[2][1]:
+            ck.violation("C13: one-thread runs of %s with 'random seed: 1' and 'random seed: 2' write identical snapshots (all %d datasets/attributes apart from the recorded parameter): the seed does not reach the generators, "
+                         "so the run does not use the RANLUX stream of its seed" % (cfg, sum(len(v) for v in by_seed[1][1].values())),
+                         {"config": cfg, "seeds": [1, 2]}, key={"kind": "seed_ignored", "config": cfg})
+    ck.coverage["whole_binary_seed_pairs"] = nseed
     ck.coverage["whole_binary_objects_compared"] = ncomp
     ck.coverage["whole_binary_configs"] = [c for c, _ in cfgs]
